@@ -83,7 +83,7 @@ fn visit_exprs(p: &mut Program, f: &mut dyn FnMut(&mut Expr) -> bool) {
 }
 
 /// visits every statement list; callback gets the block and may edit it; returns true to stop
-fn visit_blocks(p: &mut Program, f: &mut dyn FnMut(&mut Vec<Stmt>) -> bool) {
+pub fn visit_blocks(p: &mut Program, f: &mut dyn FnMut(&mut Vec<Stmt>) -> bool) {
     fn ex(e: &mut Expr, f: &mut dyn FnMut(&mut Vec<Stmt>) -> bool) -> bool {
         match e {
             Expr::Bin(_, a, b) => ex(a, f) || ex(b, f),
